@@ -225,7 +225,38 @@ CLAIMS = {
 PENDING_REASON = "check not built yet (build in progress; DESIGN.md §3 lists the planned structural clauses)"
 
 
+# clauses added in the fifth seeded round (appended to the claim texts above)
+ROUND5 = {
+    "C01": "R01.9 also: the rank windows of lists and sorted sets (range/trim/range/rev_range) agree on every clamp bound they share. "
+           "R01.12 the `*` arm of the glob matcher loops over every remaining offset and only tests its recursive attempts.",
+    "C02": "R02.4 also covers a slot cloned out of a field of a release-on-Drop owner. R02.8 slot hand-off protocol: send stores before it "
+           "wakes under one lock, poll checks and parks in one critical section and returns only the taken value, reset empties the value, "
+           "only fresh or reset slots are pooled.",
+    "C03": "R03.8 (= C02 R02.7) the batched pipelines queue every key and fill reply slots from that key's shard response.",
+    "C04": "R04.9 a buffer returned to a buffer pool is fresh or cleared (or every pop clears). R04.10 (= C15 R15.11) constant-offset accesses "
+           "into the input are covered by a dominating length test. R04.11 (= C02 R02.7) batched pipelines keep one reply per position.",
+    "C05": "R05.8 the EXEC arm re-reads watched keys with the command the WATCH arm used for the snapshot.",
+    "C08": "R08.1 also: no `*self = ..` / mem::replace/swap/take of a whole value that holds a node clock.",
+    "C09": "R09.9 (= C10 R10.1/R10.3) the reader yields only validated entries, a damaged or unreadable file does not end recovery.",
+    "C10": "R10.7 constant-offset accesses in wal.rs are covered by a dominating length test (torn file => error, not panic). R10.8 no "
+           "function of wal.rs reorders WalEntry/ReplicationDelta sequences.",
+    "C11": "R11.7 (= C06 R06.3 / C08 R08.5) the ingest recovery goes through stores on every path. R11.8 (= C10 R10.1/R10.3) the WAL part "
+           "of recovery yields every intact entry.",
+    "C13": "R13.12 (= C08 R08.2) every mutator of ReplicatedValue advances the outer stamp compaction orders by.",
+    "C14": "R14.10 constant-offset accesses in the WAL/segment/checkpoint decoders are covered by a dominating length test. R14.11 no serde "
+           "impl of a replication/streaming type uses serde's buffered Content form or deserialize_any.",
+    "C15": "R15.11 every constant-offset access into decoder input (RESP decoders, GET/SET recognisers) is dominated by length tests that "
+           "prove the slice long enough, with caller-established preconditions for private functions.",
+    "C16": "R16.6 the argument vector handed to the Lua command translator is built inside the callback invocation, never captured state.",
+    "C18": "R18.9 (= C06 R06.3) the ingest used by both directions of a sync merges and stores on every path. R18.10 every digest handed out "
+           "is computed by StateDigest::from_state from the key map passed in; the manager keeps no digest of its own.",
+    "C19": "R19.6 virtual-node positions are hashed from node id and index as two separate integer feeds.",
+}
+
+
 def main():
+    for _pid, _extra in ROUND5.items():
+        CLAIMS[_pid]["text"] = CLAIMS[_pid]["text"].rstrip() + " " + _extra
     props = [json.loads(l) for l in open(os.path.join(VERIF, "properties.jsonl"))]
     checks = []
     na = []
